@@ -9,6 +9,7 @@ CONSTANTS
  Calls = 2
  TxLen = 2
  Guarded = TRUE
+ FailProcs = {}
 INVARIANT NoCrash
 INVARIANT MutualExclusion
 INVARIANT NoLostUnlock
